@@ -54,13 +54,17 @@ ExportSeqs ==
                   (import <root>.sub._modb): none of these re-exports a declaration, both stay private.
    "pkgnamed"   - the package sub/deep is itself called like declaration 1 (reported as "deep"), which it re-exports from its private module
                   _moda; declaration 2 is written into the package file of that package.
+   "privalias" - both modules are private; the top package imports declaration 1 under a private alias (`from ... import X as _HidA`), which
+                 is no public re-export: the declaration is public only through the other package that re-exports it by name (if any)
+   "conddecl" - declaration 1 stands under a module-level `if sys.version_info >= (3, 8):`, declaration 2 in the body of a module-level
+                `try:`; both are declarations of their modules like any other
    "redefclass" - class 1 is defined twice in its module (the later definition is the class); both definitions declare the class attribute
                   `retries` and assign `self.verbose` in the constructor, the later one also declares `level`: each exactly once
    "genericattr" - class 1 is generic; its class attribute `content` and its constructor-assigned attribute `item` are typed by the type variable
                   (and `plain` by int): attributes are declarations like any other.
    "privreexp"  - like "distinct", but the sibling package (at = 3) is a private one (<root>/_other; reported as "other"): a public declaration
                   that only a private package re-exports is still emitted once, in its module's stub or in that package's. *)
-Variants == {"privtwinlate", "samemoduleboth", "bareimport", "privpkgtop", "privpkginit", "pkgnamed", "samenameboth", "genericattr", "redefclass", "privreexp", "distinct", "samename", "suffix", "samemodule", "initdecl", "sharedbase", "suffixalias", "stdlibname", "exccls", "pkgmodreexp", "privtwin", "privtwindeep", "newtype"}
+Variants == {"conddecl", "privalias", "privtwinlate", "samemoduleboth", "bareimport", "privpkgtop", "privpkginit", "pkgnamed", "samenameboth", "genericattr", "redefclass", "conddecl", "privreexp", "distinct", "samename", "suffix", "samemodule", "initdecl", "sharedbase", "suffixalias", "stdlibname", "exccls", "pkgmodreexp", "privtwin", "privtwindeep", "newtype"}
 Universe == { [kind |-> k, exports |-> e, variant |-> "distinct"] : k \in Kinds, e \in ExportSeqs }
              \cup { [kind |-> k, exports |-> << Exp(a, 1, x) >>, variant |-> v] : k \in Kinds, a \in {0, 1, 2}, x \in {"", "AliasA"}, v \in {"samename", "suffix"} }
              \cup { [kind |-> k, exports |-> << Exp(a, 1, "") >>, variant |-> "samemodule"] : k \in Kinds, a \in {0, 1, 3} }
@@ -72,6 +76,8 @@ Universe == { [kind |-> k, exports |-> e, variant |-> "distinct"] : k \in Kinds,
              \cup { [kind |-> k, exports |-> << Exp(2, 1, "") >>, variant |-> "pkgnamed"] : k \in Kinds }
              \cup { [kind |-> k, exports |-> e, variant |-> "samenameboth"] : k \in Kinds, e \in { << Exp(a, 1, ""), Exp(a, 2, "AliasA") >> : a \in {0, 1} } \cup { << Exp(0, 2, "AliasA"), Exp(0, 1, "") >> } }
              \cup { [kind |-> "class", exports |-> e, variant |-> "genericattr"] : e \in { << >>, << Exp(0, 1, "") >> } }
+             \cup { [kind |-> k, exports |-> e, variant |-> "privalias"] : k \in Kinds, e \in { << Exp(a, 1, ""), Exp(0, 1, "_HidA") >> : a \in {1, 2} } \cup { << Exp(0, 1, "_HidA"), Exp(1, 1, "") >>, << Exp(0, 1, "_HidA") >> } }
+             \cup { [kind |-> k, exports |-> e, variant |-> "conddecl"] : k \in Kinds, e \in { << >>, << Exp(0, 1, "") >>, << Exp(0, 2, "AliasA") >> } }
              \cup { [kind |-> "class", exports |-> e, variant |-> "redefclass"] : e \in { << >>, << Exp(0, 1, "") >> } }
              \cup { [kind |-> k, exports |-> e, variant |-> "privreexp"] : k \in Kinds, e \in { << Exp(3, t, x) >> : t \in {1, 2}, x \in {"", "AliasA"} } \cup { << Exp(3, 1, ""), Exp(1, 1, "") >> } }
              \cup { [kind |-> k, exports |-> e, variant |-> "newtype"] : k \in Kinds, e \in { << >>, << Exp(0, 2, "") >> } }
@@ -84,18 +90,19 @@ Universe == { [kind |-> k, exports |-> e, variant |-> "distinct"] : k \in Kinds,
              \cup { [kind |-> "class", exports |-> e, variant |-> "sharedbase"] : e \in { << >>, << Exp(0, 1, "") >>, << Exp(1, 2, "") >> } }
 
 BoundName(e) == IF e.alias = "" THEN DName(e.tgt) ELSE e.alias
+PubAlias(e) == e.alias = "" \/ SubSeq(e.alias, 1, 1) # "_"      \* a binding under a private name exposes nothing
 (* what package `at` exposes after executing its imports in order: name -> declaration (later bindings win) *)
 Exposes(s, at, t) ==
   \E j \in 1..Len(s.exports) :
-     /\ s.exports[j].at = at /\ s.exports[j].tgt = t
+     /\ s.exports[j].at = at /\ s.exports[j].tgt = t /\ PubAlias(s.exports[j])
      /\ \A m \in (j + 1)..Len(s.exports) : ~(s.exports[m].at = at /\ BoundName(s.exports[m]) = BoundName(s.exports[j]))
 ExposedNames(s, at, t) ==
-  { BoundName(s.exports[j]) : j \in { j \in 1..Len(s.exports) : s.exports[j].at = at /\ s.exports[j].tgt = t
+  { BoundName(s.exports[j]) : j \in { j \in 1..Len(s.exports) : s.exports[j].at = at /\ s.exports[j].tgt = t /\ PubAlias(s.exports[j])
                                        /\ \A m \in (j + 1)..Len(s.exports) : ~(s.exports[m].at = at /\ BoundName(s.exports[m]) = BoundName(s.exports[j])) } }
 PublicDecl(s, t) ==
   IF s.variant = "bareimport" THEN FALSE ELSE
   IF s.variant \in {"privtwin", "privtwindeep", "privtwinlate"} THEN t = 1 ELSE
-  IF s.variant \in {"distinct", "samemodule", "initdecl", "sharedbase", "suffixalias", "stdlibname", "exccls", "pkgmodreexp", "newtype", "privreexp", "genericattr", "redefclass", "samenameboth", "pkgnamed", "privpkginit", "privpkgtop", "samemoduleboth"} THEN TRUE
+  IF s.variant \in {"distinct", "samemodule", "initdecl", "sharedbase", "suffixalias", "stdlibname", "exccls", "pkgmodreexp", "newtype", "privreexp", "genericattr", "redefclass", "conddecl", "samenameboth", "pkgnamed", "privpkginit", "privpkgtop", "samemoduleboth"} THEN TRUE
   ELSE t = 1 /\ \E a \in Ats : Exposes(s, a, 1)       \* private modules: public only through the re-export, and only the re-exported declaration
 ModHomeV(s, t) == IF s.variant = "privtwin" THEN (IF t = 1 THEN <<"sub", "deep", "modsame">> ELSE <<"_hid", "modsame">>)
                   ELSE IF s.variant = "privtwindeep" THEN (IF t = 1 THEN <<"sub", "deep", "modsame">> ELSE <<"sub", "deep", "_hid", "modsame">>) ELSE IF s.variant = "privtwinlate" THEN (IF t = 1 THEN <<"sub", "deep", "modsame">> ELSE <<"sub", "zz", "_hid", "modsame">>) ELSE IF s.variant = "pkgmodreexp" THEN (IF t = 1 THEN <<"sub", "deep">> ELSE <<"sub">>) ELSE IF s.variant = "stdlibname" /\ t = 2 THEN <<"sub", "logging">> ELSE IF s.variant = "sharedbase" THEN <<"sub", "deep", "moda">> ELSE IF s.variant = "initdecl" /\ t = 1 THEN <<"sub", "deep">> ELSE IF s.variant = "pkgnamed" /\ t = 2 THEN <<"sub", "deep">> ELSE IF s.variant = "privpkginit" /\ t = 1 THEN <<"sub", "_2d">> ELSE IF s.variant = "privpkgtop" /\ t = 1 THEN <<"_2d">> ELSE IF s.variant \in {"samemodule", "samemoduleboth"} THEN (IF t = 1 THEN <<"sub", "deep", "modsame">> ELSE <<"sub", "modsame">>) ELSE ModHome(t)
@@ -122,7 +129,7 @@ Live_Done == <>(pc = "done")
 Shape(s) == (IF Len(s.exports) = 0 THEN (IF s.variant = "initdecl" THEN "declared-in-package-file" ELSE "not-re-exported") ELSE IF Len(s.exports) = 1 THEN "single" ELSE
              IF s.exports[1].tgt = s.exports[2].tgt THEN (IF s.exports[1].at = s.exports[2].at THEN "same-package-twice" ELSE IF Len(PkgPath(s.exports[1].at)) = Len(PkgPath(s.exports[2].at)) THEN "two-packages-equal-depth" ELSE "two-depths")
              ELSE (IF BoundName(s.exports[1]) = BoundName(s.exports[2]) THEN "two-declarations-one-name" ELSE "two-declarations-one-package"))
-            \o ":" \o s.kind \o (IF s.variant = "samemodule" THEN ":same-module-name" ELSE IF s.variant = "samemoduleboth" THEN ":same-module-name-both-re-exported-under-aliases" ELSE IF s.variant = "suffixalias" THEN ":name-is-suffix-of-aliased-name" ELSE IF s.variant = "stdlibname" THEN ":module-named-like-imported-stdlib-module" ELSE IF s.variant = "exccls" THEN ":exception-class" ELSE IF s.variant = "pkgmodreexp" THEN ":package-file-re-exported-as-module" ELSE IF s.variant = "privreexp" THEN ":re-exported-by-private-package" ELSE IF s.variant = "samenameboth" THEN ":same-name-in-two-private-modules" ELSE IF s.variant = "pkgnamed" THEN ":package-named-like-its-re-export" ELSE IF s.variant = "privpkginit" THEN ":declared-in-private-package-file" ELSE IF s.variant = "privpkgtop" THEN ":declared-in-private-package-file-beside-re-exporter" ELSE "")
+            \o ":" \o s.kind \o (IF s.variant = "samemodule" THEN ":same-module-name" ELSE IF s.variant = "samemoduleboth" THEN ":same-module-name-both-re-exported-under-aliases" ELSE IF s.variant = "suffixalias" THEN ":name-is-suffix-of-aliased-name" ELSE IF s.variant = "stdlibname" THEN ":module-named-like-imported-stdlib-module" ELSE IF s.variant = "exccls" THEN ":exception-class" ELSE IF s.variant = "pkgmodreexp" THEN ":package-file-re-exported-as-module" ELSE IF s.variant = "privreexp" THEN ":re-exported-by-private-package" ELSE IF s.variant = "samenameboth" THEN ":same-name-in-two-private-modules" ELSE IF s.variant = "pkgnamed" THEN ":package-named-like-its-re-export" ELSE IF s.variant = "privpkginit" THEN ":declared-in-private-package-file" ELSE IF s.variant = "privpkgtop" THEN ":declared-in-private-package-file-beside-re-exporter" ELSE "") \o (IF s.variant = "conddecl" THEN ":declared-under-module-level-if-or-try" ELSE "") \o (IF s.variant = "privalias" THEN ":one-import-under-private-alias" ELSE "")
 Emit == pc = "done" => PrintT(ToJson([kind |-> sc.kind, exports |-> sc.exports, variant |-> sc.variant, shape |-> Shape(sc)]))     \* shape: the signature of the scenario, for run-level judgements
 
 (* obs = [decls: Seq of [tgt, occs: Seq [home, name]]] *)
@@ -155,7 +162,7 @@ Judge(s, obs) ==
              ELSE
              (IF n = 0 THEN { [property |-> "C03", clause |-> "ExactlyOnce", sig |-> "u2:dropped:" \o Shape(s), expected |-> "1", observed |-> "0"] } ELSE {})
              \cup (IF n > 1 THEN { [property |-> "C03", clause |-> "ExactlyOnce", sig |-> "u2:duplicated:" \o Shape(s), expected |-> "1", observed |-> ToString(n)] } ELSE {})
-             \cup (IF s.variant \in {"distinct", "samemodule", "initdecl", "sharedbase", "suffixalias", "stdlibname", "exccls", "pkgmodreexp", "newtype", "privreexp", "genericattr", "redefclass", "samenameboth", "pkgnamed", "privpkginit", "privpkgtop", "samemoduleboth"} /\ n = 1 /\ d.occs[1].home \notin AllowedHomes(s, d.tgt) THEN { [property |-> "C03", clause |-> "Home", sig |-> "u2:" \o Shape(s), expected |-> ToString(AllowedHomes(s, d.tgt)), observed |-> ToString(d.occs[1].home)] } ELSE {})
-             \cup (IF s.variant \in {"distinct", "samemodule", "initdecl", "sharedbase", "suffixalias", "stdlibname", "exccls", "pkgmodreexp", "newtype", "privreexp", "genericattr", "redefclass", "samenameboth", "pkgnamed", "privpkginit", "privpkgtop", "samemoduleboth"} /\ n = 1 /\ d.occs[1].name \notin AllowedNames(s, d.tgt) THEN { [property |-> "C03", clause |-> "Name", sig |-> "u2:" \o Shape(s), expected |-> ToString(AllowedNames(s, d.tgt)), observed |-> d.occs[1].name] } ELSE {})
+             \cup (IF s.variant \in {"distinct", "samemodule", "initdecl", "sharedbase", "suffixalias", "stdlibname", "exccls", "pkgmodreexp", "newtype", "privreexp", "genericattr", "redefclass", "conddecl", "samenameboth", "pkgnamed", "privpkginit", "privpkgtop", "samemoduleboth", "privalias"} /\ n = 1 /\ d.occs[1].home \notin AllowedHomes(s, d.tgt) THEN { [property |-> "C03", clause |-> "Home", sig |-> "u2:" \o Shape(s), expected |-> ToString(AllowedHomes(s, d.tgt)), observed |-> ToString(d.occs[1].home)] } ELSE {})
+             \cup (IF s.variant \in {"distinct", "samemodule", "initdecl", "sharedbase", "suffixalias", "stdlibname", "exccls", "pkgmodreexp", "newtype", "privreexp", "genericattr", "redefclass", "conddecl", "samenameboth", "pkgnamed", "privpkginit", "privpkgtop", "samemoduleboth", "privalias"} /\ n = 1 /\ d.occs[1].name \notin AllowedNames(s, d.tgt) THEN { [property |-> "C03", clause |-> "Name", sig |-> "u2:" \o Shape(s), expected |-> ToString(AllowedNames(s, d.tgt)), observed |-> d.occs[1].name] } ELSE {})
         : j \in 1..Len(obs.decls) }
 =============================================================================
